@@ -181,6 +181,46 @@ WRAP_CONTAINERS = {
 WRAP_SETTINGS = [{"wrap_python": True}, {"wrap_lua": True}, {"wrap_c": True}, {"wrap_c": True, "wrap_fortran": True}, {"wrap_c": True, "wrap_python": True}]
 
 
+# (1d) enumerations: a setting on the enum declaration itself == the same setting on a block that holds only that enum
+ENUM_BASE = """\
+library: En
+cxx_header: en.hpp
+options:
+  wrap_python: true
+  wrap_lua: false
+declarations:
+- decl: enum Color { RED = 10, BLUE, WHITE };
+- decl: enum Shade { LIGHT, DARK };
+- decl: int brightness(Color c)
+- decl: namespace ns
+  declarations:
+  - decl: enum Kind { ONE, TWO }
+  - decl: int kind_of(Kind k)
+- decl: class Cls
+  declarations:
+  - decl: enum Mode { ON, OFF = 4 }
+  - decl: Cls()
+"""
+ENUM_SITES = {"library": ("declarations", 0), "namespace": ("declarations", 3, "declarations", 0), "class": ("declarations", 4, "declarations", 0)}
+ENUM_SETTINGS = [
+    ("options", "C_enum_template", "{C_prefix}{C_name_scope}{enum_name}_zz"),
+    ("options", "C_enum_member_template", "{C_prefix}{C_name_scope}{enum_name}_{enum_member_name}"),
+    ("options", "F_enum_member_template", "{F_name_scope}{enum_lower}_{enum_member_lower}"),
+    ("options", "C_enum_member_template", "ZZ_{enum_member_name}"),
+    ("options", "F_enum_member_template", "zz_{enum_member_lower}"),
+]
+
+
+def enum_pair(base, kind, name, value, site):
+    a = copy.deepcopy(base)
+    b = copy.deepcopy(base)
+    node_at(a, ENUM_SITES[site]).setdefault(kind, {})[name] = value
+    path = ENUM_SITES[site]
+    parent = node_at(b, path[:-1])
+    parent[path[-1]] = {"block": True, kind: {name: value}, "declarations": [parent[path[-1]]]}
+    return a, b
+
+
 def node_at(tree, path):
     n = tree
     for p in path:
@@ -219,6 +259,7 @@ def compare_case(args):
     """Generate two descriptions; compare the output directories."""
     workdir, label, da, db, argv_a, argv_b, comment_only = args[:7]
     only = args[7] if len(args) > 7 else None
+    differ = len(args) > 8 and args[8] == "differ"
     ra, ta = gen.gen_tree(os.path.join(workdir, "a"), da, argv_a)
     rb, tb = gen.gen_tree(os.path.join(workdir, "b"), db, argv_b)
     shutil.rmtree(workdir, ignore_errors=True)
@@ -235,6 +276,8 @@ def compare_case(args):
     if comment_only:
         ta = {k: gen.strip_comments(k, v).encode() for k, v in ta.items()}
         tb = {k: gen.strip_comments(k, v).encode() for k, v in tb.items()}
+    if differ:
+        return (label, "ok", len(ta)) if ta != tb else (label, "bad", "the setting changes nothing in the output: it is ignored where it is written")
     if ta != tb:
         return (label, "bad", "\n".join(isolate.diff_trees(ta, tb, limit=2)))
     return (label, "ok", len(ta))
@@ -398,6 +441,14 @@ def run(ctx):
             for f in functions_under(node_at(b, WRAP_CONTAINERS[container])):
                 f.setdefault("options", {}).update(setting)
             add(("wrap-placement", "+".join(sorted(setting)), container), a, b)
+    ebase = yaml.safe_load(ENUM_BASE)
+    for kind, name, value in ENUM_SETTINGS:
+        for site in ENUM_SITES:
+            a, b = enum_pair(ebase, kind, name, value, site)
+            add(("enum-placement", name, value, site), a, b)
+            # and the setting acts: the output differs from the unset library
+            k[0] += 1
+            jobs.append((os.path.join(wd, "j%d" % k[0]), ("enum-setting-acts", name, value, site), a, ebase, [], [], False, None, "differ"))
     # (1b) instantiations of a class template are scopes of their own: options on one instantiation leave the sibling
     # untouched, and options on every instantiation equal options on the class
     tbase = yaml.safe_load(TEMPLATE_BASE)
@@ -508,6 +559,12 @@ def run(ctx):
             elif kind == "template-each":
                 key = "template-each %s" % label[1]
                 what = "option %s on every instantiation differs from the same option on the class template:\n%s" % (label[1], info)
+            elif kind == "enum-placement":
+                key = "enum-placement %s=%s@%s" % label[1:4]
+                what = "option %s=%s on the enum declaration (%s scope) differs from the same option on a block holding only that enum:\n%s" % (label[1:4] + (info,))
+            elif kind == "enum-setting-acts":
+                key = "enum-setting-acts %s=%s@%s" % label[1:4]
+                what = "option %s=%s on the enum declaration (%s scope): %s" % (label[1:4] + (info,))
             elif kind == "blocks":
                 key = "blocks %s" % label[1]
                 what = "grouping %s into empty blocks changes the output:\n%s" % (label[1], info)
